@@ -9,7 +9,11 @@ SEL_POOL = [".k1", ".k2", ".id", ".g", ".", "^.g", ".items#0.k1", "(get . \"k1\"
             "(? (number? .k1) (* .k1 2) .k1)", "(stringify .k2)", "(match .g \"^a\")", "(match (default .g \"\") \"b$|^$\")",
             "(extract_regex_group (default .g \"\") \"(a)(.*)\" 2)", "(map .items (.get \"n\"))", "(| .items (filter . (.get \"f\")) (size .))",
             "(set \"x\" .id (+ :x :x))", "(define \"m\" (.get \"k1\") @m)", ":v", "(concat \"<\" (stringify .id) \">\")", "(sort (values .))",
-            "(= .k1 .k2)", "(< .k1 .k2)", "(and (boolean? .f) .f)", "(take (stringify .) 5)", "(head (default .g \"\") 1)"]
+            "(= .k1 .k2)", "(< .k1 .k2)", "(and (boolean? .f) .f)", "(take (stringify .) 5)", "(head (default .g \"\") 1)",
+            # expressions whose value depends on more than `.`: enclosing inputs, variables bound per record, text evaluated against the input
+            "(parse_selection \".k1\")", "(parse_selection \"(+ .id 1)\")", "(set \"x\" .id (: \"x\"))", "(set \"x\" .id (+ (: \"x\") 1))",
+            "(map .items (set \"y\" ^.id (+ :y (get . \"n\"))))", "(define \"m\" (.get \"id\") (@ \"m\"))", "@up", "@par", "@twice"]
+MACROS = ["--set=@up=(concat (stringify ^.id) \"-\" (stringify .n))", "--set=@par=^.g", "--set=@twice=(* (default .id 1) 2)"]
 FILTER_POOL = [".f", "(= .f true)", "(number? .k1)", "(match (default .g \"\") \"a\")", "(< (default .id 0) 20)", "(not (null? .))", "(object? .)"]
 SPLIT_POOL = [".items", ".", "(default .items [])", "(values .)", "(map .items (+ (.get \"n\") 1))"]
 STYLES = [([], True), (["--style=consise"], True), (["--style=pretty"], False), (["--style=one-line", "--utf8-strings"], True),
@@ -32,8 +36,7 @@ def gen(cs, rnd, n):
             argv.append("--split-by=" + rnd.choice(SPLIT_POOL))
         if rnd.random() < 0.5 or any(":v" in a for a in argv):
             argv.append("--set=v=" + rnd.choice(["1", "\"x\"", "[1,2]"]))
-        if rnd.random() < 0.3:
-            argv.append("--set=@twice=(* . 2)")
+        argv += MACROS
         if rnd.random() < 0.6:
             argv.append("--regular-expression-cache-size=%d" % rnd.choice([0, 1, 2, 64]))
         if rnd.random() < 0.15:
